@@ -26,5 +26,5 @@ func (i *ReturnsNotMatch) Error() string {
 // argLen 参数长度
 // expectLen 期望长度
 func NewReturnsNotMatchError(funcDef interface{}, argLen int, expectLen int) error {
-	return &ArgsNotMatch{funcDef: funcDef, argLen: argLen, expectLen: expectLen}
+	return &ReturnsNotMatch{funcDef: funcDef, argLen: argLen, expectLen: expectLen}
 }
